@@ -180,7 +180,9 @@ func c02Run(p *prepared, f *c02Fault, ref *c02Ref, plan []perturb) c02Out {
 						keys = append(keys, key)
 					}
 				}
-				sort.Slice(keys, func(a, b int) bool { return keys[a][0] < keys[b][0] || keys[a][0] == keys[b][0] && keys[a][1] < keys[b][1] })
+				sort.Slice(keys, func(a, b int) bool {
+					return keys[a][0] < keys[b][0] || keys[a][0] == keys[b][0] && keys[a][1] < keys[b][1]
+				})
 				if len(keys) > 0 {
 					key := keys[(f.Ordinal*2+int(f.Dir))%len(keys)]
 					if f.Exact {
@@ -472,7 +474,9 @@ func TestVerifC02Exhaustive(t *testing.T) {
 		for key := range counts {
 			keys = append(keys, key)
 		}
-		sort.Slice(keys, func(i, j int) bool { return keys[i][0] < keys[j][0] || keys[i][0] == keys[j][0] && keys[i][1] < keys[j][1] })
+		sort.Slice(keys, func(i, j int) bool {
+			return keys[i][0] < keys[j][0] || keys[i][0] == keys[j][0] && keys[i][1] < keys[j][1]
+		})
 		for _, kind := range []string{"conn:abrupt-loss", "conn:close-by-sender", "conn:close-by-receiver"} {
 			for _, key := range keys {
 				flowed := counts[key]
